@@ -997,6 +997,19 @@ func extractRouting(repo, root string) error {
 	default:
 		b.WriteString("def updateCompare : BrokerCompare := .other\n\n")
 	}
+	us, err := extractUpdateSets(repo)
+	if err != nil {
+		return err
+	}
+	b.WriteString("/-- transport.go update, classification of a broker id of the NEW layout: (goes into the add set, goes into the\ndelete set), by whether the id was in the old layout and whether its entry changed -/\n")
+	fmt.Fprintf(&b, "def updateNewEntry (inOld changed : Bool) : Bool × Bool :=\n  %s\n", us.newEntry)
+	b.WriteString("/-- … and of a broker id of the OLD layout, by whether it is still in the new one -/\n")
+	fmt.Fprintf(&b, "def updateOldEntry (inNew : Bool) : Bool × Bool :=\n  %s\n", us.oldEntry)
+	b.WriteString("/-- which set is applied to the pool's connection groups first -/\ninductive SetRole where\n  | add | del\n  deriving DecidableEq, Repr, Inhabited\n")
+	for i := range us.order {
+		us.order[i] = "." + us.order[i]
+	}
+	fmt.Fprintf(&b, "def updateApplyOrder : List SetRole := [%s]\n\n", strings.Join(us.order, ", "))
 	guard, err := brokerConnGuard(repo)
 	if err != nil {
 		return err
